@@ -194,12 +194,30 @@ class Model:
         self._expand_classifiers()
 
     def _expand_classifiers(self) -> None:
-        from .expand import expand_function, inline_method_aliases
+        from .expand import expand_function, inline_import_helpers, spread_kwargs_dicts, inline_method_aliases, loops_to_comprehensions, merge_boolean_returns
         for f in list(self.functions.values()):
             fn = f.node
             if not isinstance(fn, ast.FunctionDef):
                 continue
             na = inline_method_aliases(fn)
+            na += merge_boolean_returns(fn)
+            na += spread_kwargs_dicts(fn)
+
+            def lookup(call: ast.Call, f: FuncInfo = f) -> t.Optional[ast.FunctionDef]:
+                q = self.resolve(call.func, f.module, f)
+                g = self.functions.get(q or '')
+                if g is None or g is f or g.cls is not None or g.parent is not None or not isinstance(g.node, ast.FunctionDef):
+                    return None
+                return g.node
+            ni = inline_import_helpers(fn, lookup)
+            if ni:
+                na += ni
+                for sub_ in ast.walk(fn):
+                    if isinstance(sub_, (ast.Import, ast.ImportFrom)):
+                        f.local_imports.update(import_bindings(sub_, f.module.name))
+            if not f.module.name.startswith('pane.converters'):
+                # (the converter passes are analysed on their control flow as written: their loops carry try / except)
+                na += loops_to_comprehensions(fn)
             if na:
                 self.expanded[f.qualname] = self.expanded.get(f.qualname, 0) + na
                 for p_ in ast.walk(fn):
